@@ -9,6 +9,7 @@ import (
 	_ "embed"
 	"encoding/json"
 	"fmt"
+	"github.com/storacha/go-ucanto/transport"
 	pdm "github.com/storacha/go-ucanto/ucan/datamodel/payload"
 	"github.com/storacha/go-ucanto/ucan/formatter"
 	"sort"
@@ -405,6 +406,8 @@ type CWorld struct {
 	// Full: every token again, viewed over a store that holds the root block of every token of the
 	// world (same links): what a sender who embeds everything transmits
 	Full []delegation.Delegation
+	// channel: when set, batches go to the server through this channel (e.g. the library's HTTP channel)
+	channel transport.Channel
 }
 
 // fakeSigner claims one DID and signs with another principal's key (or absentee).
@@ -882,6 +885,9 @@ func (cw *CWorld) context(log *runLog) (canIssue validator.CanIssueFunc[any], ch
 		}
 		if d, ok := resolvable[l.String()]; ok && cw.phase != "deny" {
 			return d, nil
+		}
+		if ls := l.String(); len(ls) > 0 && ls[len(ls)-1]%2 == 0 {
+			return nil, validator.NewUnavailableProofError(l, nil) // a resolver need not give a cause
 		}
 		return nil, validator.NewUnavailableProofError(l, fmt.Errorf("not found"))
 	}
